@@ -267,6 +267,24 @@ CLAIMED["C19"] = dict(
               "(govc) incl. deferred closures over named results; obligations discharged by z3/cvc5",
     design="§3 C19, §7.2")
 
+CLAIMED["C01"] = dict(
+    text="Narrow claim: proof that the per-value codecs stored tag and field values pass through are bit-exact inverses - the "
+         "8-byte forms of int64 and float64 values (Int64ToBytes/BytesToInt64 with the inverse lemma, Float64ToBytes/BytesToFloat64 "
+         "on raw IEEE bits, the 2-byte exponent form), all in exact bit-vector semantics - and that the scaled-decimal list codec "
+         "for float64 columns and tags reports success only if the decoder gives every value back (Go's float ==), otherwise "
+         "refuses so that callers take the plain fallback. The latter exposed a genuine defect (one in five arbitrary doubles "
+         "altered by one ulp on write; fixed, c5cfd2b). These obligations are a subset of C11/C12's, re-checked under this id.",
+    note=COMMON_NOTE + "Said plainly: the property itself - acknowledged write -> query returns exactly what was written, nothing "
+         "else - is NOT decided. The write path, ack, column/tag framing (banyand/internal/encoding tag_encoder.go, measure/stream/"
+         "trace column.go), block splitting, projection and the query path are proto-typed packages; and composing list codecs "
+         "through buffer copies needs a theory of sequence contents that govc's array-window model does not have (uninterpreted "
+         "functions over (array, offset, length) are not functions of the contents). Known deviation left in the code and pinned by "
+         "the repository's own TestEncodeZeroVariants: -0.0 is stored as +0.0 by the decimal codec. The decoder arithmetic is "
+         "uninterpreted (decOne).",
+    technique="contract-based deductive verification: VCs from the typed Go AST (govc), QF_BV obligations for the value forms, "
+              "quantified loop invariant for the verify-or-refuse loop; obligations discharged by z3/cvc5",
+    design="§3 C01, §7.2")
+
 NOT_APPLICABLE = {
     "C15": "equivalence of two whole query pipelines over generated proto types: translation validation, no function contract states it (DESIGN.md §5)",
     "C17": "whole-cluster equivalence and gRPC/proto-typed transfer code with no type information in this tree (DESIGN.md §5)",
